@@ -216,8 +216,12 @@ def simulate(
     defocus=30.0,
     probe_intensity=1.0e3,
     probe_mode_weights=(0.7, 0.2, 0.07, 0.03),
+    allow_edge=False,
+    allow_half=False,
 ) -> dict:
     """Independent NumPy simulation of a tiny 4D-STEM ptychography data set.
+    (allow_edge: permit a scan position equal to the object size N, which is position 0 of the
+    periodic object; allow_half: permit exact half-pixel positions.)
 
     Parameters
     ----------
@@ -262,13 +266,13 @@ def simulate(
     rr, cc = np.meshgrid(pr, pc, indexing="ij")
     positions_px = np.stack([rr.ravel(), cc.ravel()], axis=-1)
     for ax in range(2):
-        if positions_px[:, ax].min() < 0 or positions_px[:, ax].max() > shape2d[ax] - 1:
+        if (positions_px[:, ax].min() < 0 or positions_px[:, ax].max() > shape2d[ax] - 1) and not allow_edge:
             raise ValueError(
                 "scan positions fall outside [0, N-1]; the library would clamp them "
                 "(clip_scan_positions) -- choose other gpts/step_px"
             )
         f = np.abs(positions_px[:, ax] - np.rint(positions_px[:, ax]))
-        if np.any(np.abs(f - 0.5) < 1e-3):
+        if np.any(np.abs(f - 0.5) < 1e-3) and not allow_half:
             raise ValueError("scan positions too close to a rounding tie")
 
     # ---- object: unit amplitude, non-negative potential (positivity constraint) ----
